@@ -1,5 +1,87 @@
-import SeedModel.Parse
+/-
+  C03lex.lean — the lexer always terminates within its fuel, and never reports a line outside
+  `1 … 1 + (number of newlines in the source)`.
+-/
+import SeedProofs.Lemmas.Scan
 namespace Seed.C03
+open Seed
+
+/-- every token consumes at least one character -/
+theorem nextToken_progress {s s' : Scanner} {sp : Span} (h : nextToken s = .tok sp s') :
+    s'.rest.length < s.rest.length := by
+  obtain ⟨n, h1, h2, rfl⟩ := nextToken_advance h
+  rw [Scanner.advance_rest_length]; omega
+
+/-- any two amounts of fuel above the remaining input length give the same token stream -/
+theorem lexRaw_fuel_irrelevant (n m : Nat) (s : Scanner) (hn : s.rest.length < n) (hm : s.rest.length < m) :
+    lexRaw n s = lexRaw m s := by
+  induction n generalizing m s with
+  | zero => omega
+  | succ n ih =>
+    cases m with
+    | zero => omega
+    | succ m =>
+      unfold lexRaw
+      cases h : nextToken s with
+      | eof => rfl
+      | err e => rfl
+      | tok sp s' =>
+        have := nextToken_progress h
+        simp only
+        rw [ih m s' (by omega) (by omega)]
+
+/-- the lexer never runs out of fuel: more fuel than `rest.length + 1` changes nothing -/
+theorem lexRaw_fuel_enough {n : Nat} {s : Scanner} (h : s.rest.length < n) :
+    lexRaw n s = lexRaw (s.rest.length + 1) s :=
+  lexRaw_fuel_irrelevant n _ s h (by omega)
+
+/-- in particular the fuel `src.length + 1` used by `lexAll` is always enough -/
+theorem lexAll_fuel_enough (src : List Char) (n : Nat) (h : src.length < n) :
+    lexRaw n (Scanner.new src) = lexRaw (src.length + 1) (Scanner.new src) := by
+  have := lexRaw_fuel_enough (n := n) (s := Scanner.new src) (by rw [Scanner.new_rest]; exact h)
+  rw [Scanner.new_rest] at this; exact this
+
+/-- no reported line exceeds `1 +` the number of newlines of the source -/
+theorem lexRaw_lines_le (src : List Char) (n k : Nat) :
+    (∀ sp ∈ (lexRaw n ((Scanner.new src).advance k)).1,
+        sp.start.1 ≤ 1 + src.count '\n' ∧ sp.stop.1 ≤ 1 + src.count '\n') ∧
+    (∀ e, (lexRaw n ((Scanner.new src).advance k)).2 = some e → e.loc.1 ≤ 1 + src.count '\n') :=
+  lexRaw_lines_bounded src (· ≤ 1 + src.count '\n') (line_le src) n k
+
+/-- every reported line is at least 1 -/
+theorem lexRaw_lines_ge_one (src : List Char) (n k : Nat) :
+    (∀ sp ∈ (lexRaw n ((Scanner.new src).advance k)).1, 1 ≤ sp.start.1 ∧ 1 ≤ sp.stop.1) ∧
+    (∀ e, (lexRaw n ((Scanner.new src).advance k)).2 = some e → 1 ≤ e.loc.1) :=
+  lexRaw_lines_bounded src (1 ≤ ·) (line_ge_one src) n k
+
+/-- terminator suppression only removes spans -/
+theorem suppress_subset (last : Option Token) (ts : List Span) : ∀ sp ∈ suppress last ts, sp ∈ ts := by
+  induction ts generalizing last with
+  | nil => intro sp h; simp [suppress] at h
+  | cons t r ih =>
+    intro sp h
+    unfold suppress at h
+    repeat' split at h
+    all_goals first
+      | (rcases List.mem_cons.mp h with rfl | h
+         · exact List.mem_cons_self
+         · exact List.mem_cons_of_mem _ (ih _ sp h))
+      | exact List.mem_cons_of_mem _ (ih _ sp h)
+
+/-- the lines of the token stream the parser sees, and of the lexical error ending it -/
+theorem lexAll_lines (src : List Char) :
+    (∀ sp ∈ (lexAll src).1,
+        (1 ≤ sp.start.1 ∧ sp.start.1 ≤ 1 + src.count '\n') ∧
+        (1 ≤ sp.stop.1 ∧ sp.stop.1 ≤ 1 + src.count '\n')) ∧
+    (∀ e, (lexAll src).2 = some e → 1 ≤ e.loc.1 ∧ e.loc.1 ≤ 1 + src.count '\n') := by
+  have hle := lexRaw_lines_le src (src.length + 1) 0
+  have hge := lexRaw_lines_ge_one src (src.length + 1) 0
+  simp only [Scanner.advance_zero] at hle hge
+  unfold lexAll
+  refine ⟨?_, fun e he => ⟨hge.2 e he, hle.2 e he⟩⟩
+  intro sp hsp
+  have hmem := suppress_subset _ _ sp hsp
+  exact ⟨⟨(hge.1 sp hmem).1, (hle.1 sp hmem).1⟩, ⟨(hge.1 sp hmem).2, (hle.1 sp hmem).2⟩⟩
 
 theorem suppress_length_le (last : Option Token) (ts : List Span) : (suppress last ts).length ≤ ts.length := by
   induction ts generalizing last with
